@@ -16,8 +16,8 @@ import urwid
 ID = "C08"
 LEVEL = "model_checking"
 
-KEYS = ["up", "down", "left", "right", "page up", "page down", "home", "end", "tab", "x"]
-NAV = {"up", "down", "left", "right", "page up", "page down", "home", "end"}
+KEYS = ["up", "down", "left", "right", "page up", "page down", "home", "end", "tab", "x", "k", "j"]  # k / j are bound to 'cursor up' / 'cursor down' as plain strings
+NAV = {"up", "down", "left", "right", "page up", "page down", "home", "end", "k", "j"}
 CONTAINERS = (urwid.Pile, urwid.Columns, urwid.GridFlow, urwid.Frame, urwid.Overlay, urwid.ListBox)
 LISTLIKE = (urwid.Pile, urwid.Columns, urwid.GridFlow)
 
@@ -166,6 +166,8 @@ class Spec:
 
     def build(self, cfg):
         env.reset("utf-8")
+        urwid.command_map["k"] = "cursor up"  # the documented way: a plain string, equal to the Command member but not identical
+        urwid.command_map["j"] = "cursor down"
         name, size, fn = FIXTURES[cfg]
         st = St(fn(), size)
         settle(st)
@@ -199,7 +201,8 @@ class Spec:
                 continue
             for p in poss:
                 out.append(("focus", ci, p))
-            for bad in (-1, len(kids)) + (() if isinstance(cont, urwid.ListBox) else ("bogus",)):  # ListBox positions are walker-defined
+            frame_parts = ("header", "footer") if isinstance(cont, urwid.Frame) else ()  # a part the Frame does not have is an invalid position too
+            for bad in (-1, len(kids)) + (() if isinstance(cont, urwid.ListBox) else ("bogus",)) + frame_parts:  # ListBox positions are walker-defined
                 if bad not in poss:
                     out.append(("focus", ci, bad))
             if isinstance(cont, LISTLIKE) and st.n_new < 2:
@@ -316,6 +319,7 @@ class Spec:
     # ------------------------------------------------------------------
     def apply(self, cfg, st: St, op, ctx: Ctx, hist):
         st.depth = len(hist) + 1
+        st.assigned = None
         try:
             if op[0] == "seq":
                 if not self._apply(cfg, st, op[1], ctx, hist, record=op):
@@ -328,6 +332,15 @@ class Spec:
             return self._apply(cfg, st, op, ctx, hist)
         finally:
             settle(st)
+            if st.assigned is not None and not ctx.muted:
+                cont, p, cn = st.assigned
+                try:
+                    now = cont.focus_position
+                except Exception:
+                    now = None
+                if now != p:
+                    ctx.violation("focus-assign", f"C08/focus-assign/{cn}/reverted-by-render", {"fixture": FIXTURES[cfg][0], "hist": hist + (op,)},
+                                  f"{cn}.focus_position = {p!r} was accepted, but after the next render it reads {now!r}")
 
     def render_transparent(self, cfg, st, op, ctx, hist):
         """the same two inputs with the main loop's render in between must lead to the same focus state"""
@@ -488,6 +501,8 @@ class Spec:
                     return False
                 if cont.focus_position != p:
                     V("focus-assign", f"{cn}.focus_position = {p!r} left it at {cont.focus_position!r}", cn)
+                elif record is None:
+                    st.assigned = (cont, p, cn)
             else:
                 if not isinstance(err, IndexError):
                     V("bad-assign", f"{cn}.focus_position = {p!r} (invalid, {len(kids)} children) raised {type(err).__name__ if err else 'nothing'} instead of IndexError", cn)
